@@ -19,6 +19,7 @@ import time
 import traceback
 import importlib
 import hashlib
+import zlib
 
 ROOT = os.path.dirname(os.path.dirname(os.path.abspath(__file__)))
 sys.path.insert(0, ROOT)
@@ -180,6 +181,83 @@ def run_bounded(check, tier, seed):
             "violations": [{"case_key": "native:exception:" + last.split(":")[0][:40], "problem": last[:300], "traceback": r[-1500:]}]}
 
 
+class ObRec:
+    """picklable record of a solved obligation (what the triage and the evidence need)"""
+
+    FIELDS = ("name", "base", "kind", "line", "abstraction", "status", "backend", "time", "properties", "owners", "n_hyp", "goal", "sub", "failed_sub")
+
+    def __init__(self, ob):
+        self.name, self.base, self.kind, self.line, self.abstraction = ob.name, ob.base, ob.kind, ob.line, ob.abstraction
+        self.status, self.backend, self.time = ob.status, ob.backend, ob.time
+        self.properties = list(getattr(ob, "properties", []) or [])
+        self.owners = getattr(ob, "owners", None)
+        self.n_hyp = len(ob.pc)
+        self.pc = [None] * self.n_hyp
+        # printing z3 terms is slow: keep the goal text only where it is reported (failed obligations, a sample of the others)
+        keep = ob.status != "discharged" or (zlib.crc32(ob.name.encode()) % 211 == 0)
+        self.goal = str(ob.goal)[:3000] if keep else ""
+        self.sub = [{k: (str(v)[:2000] if k == "goal" else v) for k, v in (s_ or {}).items()
+                     if k in ("status", "backend", "time", "answers") or (keep and k in ("outputs", "goal"))}
+                    for s_ in (ob.sub or [])]
+        fs = getattr(ob, "failed_sub", None)
+        self.failed_sub = {"goal": str(fs.get("goal"))[:3000], "backend": fs.get("backend")} if fs else None
+
+
+def _worker(args):
+    """generate + discharge one target in a forked child (targets are closures: addressed by index into the inherited list)"""
+    idx, prop, budget, all_solvers, jobs = args
+    os.environ["VERIF_JOBS"] = str(jobs)
+    t = _WORK["targets"][idx]
+    frs = generate([t], prop)
+    fr = frs[0]
+    if fr.obligations:
+        solve.discharge_all(fr.obligations, budget, all_solvers=all_solvers)
+    vac = {}
+    if fr.cover:
+        for k, pc in enumerate(fr.cover):
+            stt, be = solve.check_sat(pc, solve.QUICK)
+            vac[f"{fr.qualname}#cover.pre[{k}]"] = stt
+    fr.cover = None
+    fr.vac = vac
+    fr.obligations = [ObRec(o) for o in fr.obligations]
+    return idx, fr
+
+
+_WORK = {}
+
+
+def generate_and_discharge(check, prop, budget, all_solvers):
+    """all targets of a check, generated and discharged in parallel worker processes; returns FunctionResults holding ObRecs"""
+    import multiprocessing as mp
+
+    targets = check.targets()
+    if not targets:
+        return [], 0.0
+    t0 = time.time()
+    nproc = max(1, min(len(targets), int(os.environ.get("VERIF_PROCS", "6"))))
+    if nproc == 1 or os.environ.get("VERIF_SERIAL"):
+        results = generate(targets, prop)
+        obs = [o for fr in results for o in fr.obligations]
+        if obs:
+            solve.discharge_all(obs, budget, all_solvers=all_solvers)
+        for fr in results:
+            vac = {}
+            for k, pc in enumerate(fr.cover or []):
+                stt, be = solve.check_sat(pc, solve.QUICK)
+                vac[f"{fr.qualname}#cover.pre[{k}]"] = stt
+            fr.vac = vac
+            fr.obligations = [ObRec(o) for o in fr.obligations]
+        return results, time.time() - t0
+    _WORK["targets"] = targets
+    jobs = int(os.environ.get("VERIF_JOBS_PER_PROC", "10"))
+    ctx = mp.get_context("fork")
+    out = [None] * len(targets)
+    with ctx.Pool(nproc) as pool:
+        for idx, fr in pool.imap_unordered(_worker, [(i, prop, budget, all_solvers, jobs) for i in range(len(targets))]):
+            out[idx] = fr
+    return out, time.time() - t0
+
+
 def sanitize(name):
     return re.sub(r"[^A-Za-z0-9_.#@\[\]-]", "_", name)[:150]
 
@@ -207,20 +285,17 @@ def run_check(check, tier, seed):
     faults = []
 
     # ---- 1/2 deductive part
-    results = generate(check.targets(), prop)
+    results, solve_wall = generate_and_discharge(check, prop, budget, tier == "thorough")
     all_obs = [o for fr in results for o in fr.obligations]
-    solve_wall = solve.discharge_all(all_obs, budget, all_solvers=(tier == "thorough")) if all_obs else 0.0
     undecided = {f"{fr.relpath}:{fr.qualname}": fr.error for fr in results if fr.error}
 
-    # ---- 3 vacuity
+    # ---- 3 vacuity (checked in the workers)
     vac = {}
     for fr in results:
-        if fr.cover:
-            for k, pc in enumerate(fr.cover):
-                st, be = solve.check_sat(pc, solve.QUICK)
-                vac[f"{fr.qualname}#cover.pre[{k}]"] = st
-                if st == "unsat":
-                    faults.append(f"precondition of {fr.qualname} is unsatisfiable (vacuous contract)")
+        for lab, st in (getattr(fr, "vac", None) or {}).items():
+            vac[lab] = st
+            if st == "unsat":
+                faults.append(f"precondition of {fr.qualname} is unsatisfiable (vacuous contract)")
     bases = {}
     for o in all_obs:
         bases[o.base] = bases.get(o.base, 0) + 1
@@ -277,7 +352,7 @@ def run_check(check, tier, seed):
             "status": ob.status,
             "solver_answers": [s.get("answers") for s in ob.sub if s and s.get("status") != "unsat"],
             "solver_output": [s.get("outputs") for s in ob.sub if s and s.get("status") != "unsat"][:2],
-            "goal": str(getattr(ob, "failed_sub", {}).get("goal", ob.goal))[:3000],
+            "goal": str((getattr(ob, "failed_sub", None) or {}).get("goal", ob.goal))[:3000],
             "function": f"{check_relname(ob)}",
             "discharged_on_baseline": was_discharged,
             "counterexample": cex,
@@ -333,7 +408,8 @@ def run_check(check, tier, seed):
     if level == "proof" and n_dis != n_ob:
         level = "other"
     samples = []
-    for o in all_obs[:: max(1, len(all_obs) // 4)][:4]:
+    with_text = [o for o in all_obs if getattr(o, "goal", "")]
+    for o in (with_text or all_obs)[:: max(1, len(with_text or all_obs) // 4)][:4]:
         samples.append({"obligation": o.name, "status": o.status, "backend": o.backend,
                         "goal": str(o.goal)[:400], "n_hypotheses": len(o.pc)})
     if bres:
